@@ -341,6 +341,11 @@ func report(id string, spec propSpec, tier string, seed int64, parts []vk.Part, 
 	nviol := 0
 	exit := 0
 	os.MkdirAll(filepath.Join(vk.Root, "evidence", "replay"), 0o755)
+	if old, _ := filepath.Glob(filepath.Join(vk.Root, "evidence", "replay", id+"-*.json")); len(old) > 0 {
+		for _, f := range old { // replay artefacts of an earlier run of this property would be mistaken for this run's
+			os.Remove(f)
+		}
+	}
 	for i, p := range parts {
 		evals += p.Evaluations
 		dist += p.DistinctNontrivial
